@@ -150,7 +150,20 @@ def solver_deriv_check(u):
     problem = mk_problem(u)
     n, m = problem.fields["__n__"], problem.fields["num_cons"]
     evals = []
-    mk = lambda kind: PyFunc(lambda it, x, *a: (evals.append((kind, x) + a), Opaque(kind))[1], kind)
+    tags = {}
+
+    def fresh_value(kind):
+        from pyvc.values import Mat as _Mat
+
+        v = {"obj": lambda: u.real("f"), "obj_grad": lambda: u.vec(u.path.fresh_name("g"), n), "cons": lambda: u.vec(u.path.fresh_name("c"), m), "cons_jac": lambda: _Mat(m, n, None, name=u.path.fresh_name("J")), "lag_hess": lambda: _Mat(n, n, None, name=u.path.fresh_name("H"))}[kind]()
+        tags[id(v)] = (kind, v)
+        return v
+
+    class _Tagged:
+        def __init__(self, v):
+            self.tag = tags.get(id(v), (None, None))[0]
+
+    mk = lambda kind: PyFunc(lambda it, x, *a: (evals.append((kind, x) + a), fresh_value(kind))[1], kind)
     ev = u.obj(None)
     for kind in ("obj", "obj_grad", "cons", "cons_jac", "lag_hess"):
         ev.fields[kind] = mk(kind)
@@ -166,9 +179,37 @@ def solver_deriv_check(u):
     for (f, xx, d, p) in checks:
         u.ensure(xx is x and p is params, "checks_run_at_the_given_point_with_the_solver's_params")
     if names[k] in ("CheckFirst", "CheckAll"):
-        u.ensure(checks[0][2].tag == "obj_grad" and checks[1][2].tag == "cons_jac", "first-order:gradient_vs_obj,Jacobian_vs_cons")
+        u.ensure(_Tagged(checks[0][2]).tag == "obj_grad" and _Tagged(checks[1][2]).tag == "cons_jac", "first-order:gradient_vs_obj,Jacobian_vs_cons")
     if names[k] in ("CheckSecond", "CheckAll"):
-        u.ensure(checks[-1][2].tag == "lag_hess" and any(e[0] == "lag_hess" and e[1] is x and e[2] is y for e in evals), "second-order:Hessian_at(x,y)")
+        u.ensure(_Tagged(checks[-1][2]).tag == "lag_hess" and any(e[0] == "lag_hess" and e[1] is x and e[2] is y for e in evals), "second-order:Hessian_at(x,y)")
+    # the REFERENCE FUNCTION handed to the checker is the function whose derivative is tested, evaluated at whatever
+    # point the checker asks for (never frozen at x): call each one at a fresh point z and look at what it evaluates
+    from pyvc.values import Mat
+
+    def probe(f, label, want_kinds):
+        z = u.vec(u.path.fresh_name("z"), n)
+        before = len(evals)
+        g = {"obj_grad": u.vec(u.path.fresh_name("g_z"), n), "cons_jac": Mat(m, n, None, name=u.path.fresh_name("J_z")), "obj": u.real("f_z"), "cons": u.vec(u.path.fresh_name("c_z"), m)}
+        for kind in g:
+            ev.fields[kind] = PyFunc((lambda kind: lambda it, xx, *a: (evals.append((kind, xx) + a), g[kind])[1])(kind), kind)
+        val = u.it.call(f, [z], {})
+        made = evals[before:]
+        u.ensure(sorted(e[0] for e in made) == sorted(want_kinds) and all(e[1] is z for e in made), f"{label}:reference_function_evaluates_{'+'.join(want_kinds)}_at_the_point_it_is_given", desc=f"evaluations made for a fresh point z: {[(e[0], 'z' if e[1] is z else 'x' if e[1] is x else '?') for e in made]}")
+        return z, g, val
+
+    ci = 0
+    if names[k] in ("CheckFirst", "CheckAll"):
+        z, g, val = probe(checks[0][0], "first-order(objective)", ["obj"])
+        u.ensure(val is g["obj"], "first-order(objective):reference_is_the_objective")
+        z, g, val = probe(checks[1][0], "first-order(constraints)", ["cons"])
+        u.ensure(val is g["cons"], "first-order(constraints):reference_is_the_constraint_function")
+    if names[k] in ("CheckSecond", "CheckAll"):
+        z, g, val = probe(checks[-1][0], "second-order", ["obj_grad", "cons_jac"])
+        from pyvc import matmodel
+
+        jty = V(matmodel.mtv(u.it, g["cons_jac"], y))
+        vv = V(val)
+        u.ensure(QAll(n, lambda j: vv.f(j) == V(g["obj_grad"]).f(j) + jty.f(j)), "second-order:reference_is_grad_f(z)+J(z)^T*y(the_Lagrangian_gradient_at_the_multiplier_given)")
     u.cover("end")
 
 
